@@ -28,13 +28,23 @@ pub struct ThreadPlan {
     #[serde(default)]
     pub alloc_point_every: u64,
     /// The n-th formatter process this thread starts (1-based) cannot be started: a transient
-    /// EAGAIN. The call it belongs to legitimately returns the unformatted text and is excluded
-    /// from the comparison (like an injected crash); every later call is not.
+    /// EAGAIN. The call it belongs to is compared with the second golden table ("formatter cannot
+    /// be started"); every later call with the first.
     #[serde(default)]
     pub failing_spawns: Vec<u64>,
+    /// the name and stack size of the OS thread (None / 0 = unnamed, 16 MiB): what a call returns
+    /// must not depend on which thread makes it
+    #[serde(default)]
+    pub name: Option<String>,
+    #[serde(default)]
+    pub stack_mib: u32,
     pub entropy: u64,
     /// indices into the pool
     pub jobs: Vec<usize>,
+    /// positions in `jobs` whose call is made from a destructor while the thread unwinds from an
+    /// unrelated panic (a scope guard that regenerates bindings on the way out)
+    #[serde(default)]
+    pub while_unwinding: Vec<usize>,
 }
 
 #[derive(Debug, Clone, Serialize, Deserialize, PartialEq, Eq)]
@@ -174,6 +184,34 @@ pub struct WorkerOutput {
     #[serde(default)]
     pub probed_dirs: Vec<String>,
     pub log: Vec<String>,
+}
+
+/// The same call, made from a destructor that runs because the thread is unwinding from an
+/// unrelated panic. A panic of the call itself must not leave the destructor (that would abort
+/// the process): it is caught inside and handed on afterwards.
+fn call_while_unwinding(source: &str, job: &Job) -> std::thread::Result<Outcome> {
+    struct Unrelated;
+    struct OnTheWayOut<'a> {
+        source: &'a str,
+        job: &'a Job,
+        slot: &'a Mutex<Option<std::thread::Result<Outcome>>>,
+    }
+    impl Drop for OnTheWayOut<'_> {
+        fn drop(&mut self) {
+            let r = std::panic::catch_unwind(std::panic::AssertUnwindSafe(|| {
+                corpus::run_job(self.source, self.job.include_path.as_deref(), self.job.options)
+            }));
+            *self.slot.lock().unwrap() = Some(r);
+        }
+    }
+    let slot = Mutex::new(None);
+    let outer = std::panic::catch_unwind(std::panic::AssertUnwindSafe(|| {
+        let _guard = OnTheWayOut { source, job, slot: &slot };
+        std::panic::panic_any(Unrelated);
+    }));
+    debug_assert!(outer.is_err());
+    let taken = slot.lock().unwrap().take();
+    taken.unwrap_or_else(|| Err(Box::new("the destructor did not run")))
 }
 
 /// Process attributes a library call has no business changing.
@@ -473,8 +511,15 @@ fn run_process(input: &WorkerInput) -> WorkerOutput {
         let probes = probes.clone();
         let env_probes = env_probes.clone();
         let dir_probes = dir_probes.clone();
-        let handle = std::thread::Builder::new()
-            .stack_size(16 << 20)
+        let mut builder = std::thread::Builder::new().stack_size(if tplan.stack_mib == 0 {
+            16 << 20
+        } else {
+            (tplan.stack_mib as usize) << 20
+        });
+        if let Some(name) = &tplan.name {
+            builder = builder.name(name.clone());
+        }
+        let handle = builder
             .spawn(move || {
                 seams::set_thread_entropy(Some(tplan.entropy));
                 {
@@ -512,9 +557,13 @@ fn run_process(input: &WorkerInput) -> WorkerOutput {
                         seams::set_env_probe_recording(true);
                         seams::set_dir_probe_recording(true);
                         seams::set_alloc_points_active(true);
-                        let r = std::panic::catch_unwind(std::panic::AssertUnwindSafe(|| {
-                            corpus::run_job(&sources[pool_idx], job.include_path.as_deref(), job.options)
-                        }));
+                        let r = if tplan.while_unwinding.contains(&qidx) {
+                            call_while_unwinding(&sources[pool_idx], job)
+                        } else {
+                            std::panic::catch_unwind(std::panic::AssertUnwindSafe(|| {
+                                corpus::run_job(&sources[pool_idx], job.include_path.as_deref(), job.options)
+                            }))
+                        };
                         seams::set_alloc_points_active(false);
                         let looked_for = seams::take_file_probes();
                         seams::set_file_probe_recording(false);
@@ -956,8 +1005,11 @@ fn pristine_process(job_count: usize) -> ProcessPlan {
         threads: vec![ThreadPlan {
             alloc_point_every: 0,
             failing_spawns: vec![],
+            name: None,
+            stack_mib: 0,
             entropy: 0,
             jobs: (0..job_count).collect(),
+            while_unwinding: vec![],
         }],
         sched: SchedPlan {
             seed: 0,
@@ -1207,6 +1259,13 @@ pub fn gen_plan(rng: &mut Rng) -> RunPlan {
                 } else {
                     vec![]
                 },
+                while_unwinding: vec![],
+                name: if rng.chance(400) {
+                    Some(rng.pick(&["main", "build-script-build", "worker-7", "tokio-runtime-worker", "rayon-3", "名前"]).to_string())
+                } else {
+                    None
+                },
+                stack_mib: *rng.pick(&[0u32, 0, 0, 12, 64]),
                 entropy: rng.next_u64() | 1,
                 jobs: Vec::new(),
             })
@@ -1220,6 +1279,15 @@ pub fn gen_plan(rng: &mut Rng) -> RunPlan {
             } else {
                 (0..rng.usize(1, 6)).map(|_| rng.usize(0, pool.len() - 1)).collect()
             };
+        }
+        if !stress {
+            for thread in threads.iter_mut() {
+                for q in 0..thread.jobs.len() {
+                    if rng.chance(40) {
+                        thread.while_unwinding.push(q);
+                    }
+                }
+            }
         }
         let total_jobs: usize = threads.iter().map(|t| t.jobs.len()).sum();
         let est_steps = (total_jobs as u64) * 120;
